@@ -293,6 +293,22 @@ Proof.
   - apply no_restamp_app. rewrite <- Hg. auto.
 Qed.
 
+Lemma rel_admin y0 y y' :
+  rel y0 y -> y_docs y' = y_docs y -> y_next y <= y_next y' ->
+  (exists gops, y_g y' = run (y_g y0) gops /\ Forall (op_above (cached y0)) gops
+                /\ unpruned (y_g y0) gops /\ no_restamp (y_g y0) gops) ->
+  (forall c s, In (c, s) (y_uexp y') -> s <= cached y0 -> In (c, s) (y_uexp y0)) ->
+  (forall r s, In (r, s) (y_urexp y') -> s <= cached y0 -> In (r, s) (y_urexp y0)) ->
+  (forall r p, role_get r (g_roles (y_g y')) = Some (p, false) -> role_fresh (cached y0) y0 y' r) ->
+  rel y0 y'.
+Proof.
+  intros [R1 R2 R3 R4 R5 R6 R7 R8] Hd Hn Hg Hu Hur Hr. constructor; auto.
+  - lia.
+  - rewrite Hd. exact R5.
+  - rewrite Hd. exact R6.
+  - intros d. unfold doc_rel. rewrite Hd. apply R8.
+Qed.
+
 Theorem rel_step y0 y o :
   wf y0 -> wf y -> rel y0 y -> step_ok y o -> no_restamp (y_g y) (sys_gops y o) -> op_no_stale_role y o = true ->
   rel y0 (sys_step y o).
@@ -302,86 +318,93 @@ Proof.
   assert (cached y0 < y_next y) as HK by (unfold cached; lia).
   pose proof (rel_gops_step y0 y o Hw0 R1 R2 Hun Hrs) as Hgops.
   pose proof (sys_step_clock y o) as Hclk.
+  (* roles that are live after the operation and were not just created were live before *)
+  assert (forall r p, Forall (not_create_of r) (sys_gops y o) ->
+            role_get r (g_roles (y_g (sys_step y o))) = Some (p, false) ->
+            exists p', role_get r (g_roles (y_g y)) = Some (p', false)) as Hlive.
+  { intros r p Hnc Hget. rewrite sys_step_g_eq in Hget. exact (run_live_inv _ _ _ _ Hnc Hget). }
   destruct o as [d chans acc rol|d|set0|set0|r0 set0|r0|limit].
   - cbn [sys_step]. apply rel_write; auto. apply nomerge_doc_old; exact Hnm.
   - cbn [sys_step sys_gops] in *. destruct (doc_get d (y_docs y)) as [x|]; auto. destruct (sd_live x); auto.
     apply rel_write; auto. apply nomerge_doc_old; exact Hnm.
   - (* SUChans *)
-    assert (forall r p, role_get r (g_roles (y_g (sys_step y (SUChans set0)))) = Some (p, false) ->
-              exists p', role_get r (g_roles (y_g y)) = Some (p', false)) as Hlive.
-    { intros r p Hget. rewrite sys_step_g_eq in Hget. refine (run_live_inv _ _ _ _ _ Hget). cbn [sys_gops].
-      apply Forall_app; split; [repeat constructor | destruct (same_keys _ _); repeat constructor]. }
-    cbn [sys_step sys_gops] in *.
-    destruct (same_keys (y_uexp y) (sorted_set set0)) eqn:E; constructor; cbn [with_g y_next y_uexp y_urexp y_docs y_rexp y_g] in *; auto; try lia.
-    + intros r p Hget. destruct (Hlive r p Hget) as (p' & Hp'). apply (R7 r p' Hp').
-    + intros c s Hin Hle. apply in_update_at_seq in Hin as [[Hin _]|(-> & _)]; [auto | lia].
-    + intros r p Hget. destruct (Hlive r p Hget) as (p' & Hp'). apply (R7 r p' Hp').
+    assert (forall r, Forall (not_create_of r) (sys_gops y (SUChans set0))) as Hnc.
+    { intros r. cbn [sys_gops]. apply Forall_app; split; [repeat constructor | destruct (same_keys _ _); repeat constructor]. }
+    apply (rel_admin y0 y); auto.
+    + cbn [sys_step]. destruct (same_keys _ _); reflexivity.
+    + cbn [sys_step]. destruct (same_keys _ _); cbn [with_g y_uexp]; auto.
+      intros c s Hin Hle. apply in_update_at_seq in Hin as [[Hin _]|(-> & _)]; [auto | lia].
+    + cbn [sys_step]. destruct (same_keys _ _); cbn [with_g y_urexp]; auto.
+    + intros r p Hget. destruct (Hlive r p (Hnc r) Hget) as (p' & Hp').
+      eapply role_fresh_same; [| | apply (R7 r p' Hp')]; cbn [sys_step]; destruct (same_keys _ _); reflexivity.
   - (* SURoles *)
-    assert (forall r p, role_get r (g_roles (y_g (sys_step y (SURoles set0)))) = Some (p, false) ->
-              exists p', role_get r (g_roles (y_g y)) = Some (p', false)) as Hlive.
-    { intros r p Hget. rewrite sys_step_g_eq in Hget. refine (run_live_inv _ _ _ _ _ Hget). cbn [sys_gops].
-      apply Forall_app; split; [repeat constructor | destruct (same_keys _ _); repeat constructor]. }
-    cbn [sys_step sys_gops] in *.
-    destruct (same_keys (y_urexp y) (sorted_set set0)) eqn:E; constructor; cbn [with_g y_next y_uexp y_urexp y_docs y_rexp y_g] in *; auto; try lia.
-    + intros r p Hget. destruct (Hlive r p Hget) as (p' & Hp'). apply (R7 r p' Hp').
-    + intros r s Hin Hle. apply in_update_at_seq in Hin as [[Hin _]|(-> & _)]; [auto | lia].
-    + intros r p Hget. destruct (Hlive r p Hget) as (p' & Hp'). apply (R7 r p' Hp').
+    assert (forall r, Forall (not_create_of r) (sys_gops y (SURoles set0))) as Hnc.
+    { intros r. cbn [sys_gops]. apply Forall_app; split; [repeat constructor | destruct (same_keys _ _); repeat constructor]. }
+    apply (rel_admin y0 y); auto.
+    + cbn [sys_step]. destruct (same_keys _ _); reflexivity.
+    + cbn [sys_step]. destruct (same_keys _ _); cbn [with_g y_uexp]; auto.
+    + cbn [sys_step]. destruct (same_keys _ _); cbn [with_g y_urexp]; auto.
+      intros r s Hin Hle. apply in_update_at_seq in Hin as [[Hin _]|(-> & _)]; [auto | lia].
+    + intros r p Hget. destruct (Hlive r p (Hnc r) Hget) as (p' & Hp').
+      eapply role_fresh_same; [| | apply (R7 r p' Hp')]; cbn [sys_step]; destruct (same_keys _ _); reflexivity.
   - (* SRChans *)
-    cbn [op_no_stale_role] in Hstale.
-    assert (forall r p, r <> r0 -> role_get r (g_roles (y_g (sys_step y (SRChans r0 set0)))) = Some (p, false) ->
-              exists p', role_get r (g_roles (y_g y)) = Some (p', false)) as Hlive.
-    { intros r p Hne Hget. rewrite sys_step_g_eq in Hget. refine (run_live_inv _ _ _ _ _ Hget). cbn [sys_gops].
-      destruct (role_get r0 (g_roles (y_g y))) as [[p0 [|]]|].
-      - constructor; [cbn; congruence | destruct (sorted_set set0); repeat constructor].
-      - apply Forall_app; split; [repeat constructor | destruct (same_keys _ _); repeat constructor].
-      - constructor; [cbn; congruence | destruct (sorted_set set0); repeat constructor]. }
-    cbn [sys_step sys_gops] in *.
-    destruct (role_get r0 (g_roles (y_g y))) as [[p0 [|]]|] eqn:E0.
+    cbn [op_no_stale_role] in Hstale. cbn [sys_step sys_gops] in *.
+    remember (role_get r0 (g_roles (y_g y))) as rg eqn:E0 in *. symmetry in E0.
+    assert (forall r (l : list gop), r <> r0 -> Forall (not_create_of r) l ->
+              Forall (not_create_of r) (CreateRole r0 (computed_chans r0 (y_docs y) []) :: l)) as Hncc
+      by (intros r l Hne Hl; constructor; [cbn; congruence | exact Hl]).
+    assert (forall r, Forall (not_create_of r) match sorted_set set0 with [] => [] | _ :: _ => [InvalRole r0 (y_next y)] end) as Hnct
+      by (intros r; destruct (sorted_set set0); repeat constructor).
+    assert (forall r p, r <> r0 -> role_get r (g_roles (y_g y)) = Some (p, false) ->
+              role_fresh (cached y0) y0
+                (mkSys (y_next y + 1) (y_nrev y) (y_docs y) (y_uexp y) (y_urexp y) (y_useq y)
+                       (rexp_put r0 (update_at_seq (match rg with Some (_, false) => rexp_get r0 (y_rexp y) | _ => [] end) (sorted_set set0) (y_next y)) (y_rexp y))
+                       (y_g y)) r) as Hother.
+    { intros r p Hne Hp. pose proof (R7 r p Hp) as Hf. unfold role_fresh in *; cbn [y_rexp y_docs]. rewrite rexp_get_put.
+      replace (r =? r0) with false by (symmetry; apply N.eqb_neq; exact Hne). exact Hf. }
+    destruct rg as [[p0 [|]]|].
     + (* re-created *)
-      constructor; cbn [y_next y_uexp y_urexp y_docs y_rexp y_g] in *; auto; try lia.
+      apply (rel_admin y0 y); auto.
       intros r p Hget. destruct (N.eq_dec r r0) as [->|Hne].
-      * right. split.
+      * right. cbn [y_rexp y_docs]. split.
         -- intros c s Hin. rewrite rexp_get_put, N.eqb_refl in Hin.
            apply in_update_at_seq in Hin as [[[] _]|(-> & _)]. exact HK.
         -- intros x c s Hx Hin. exfalso. eapply doc_grants_nil; eauto. destruct (doc_grants r0 (y_docs y)); [reflexivity | discriminate].
-      * destruct (Hlive r p Hne Hget) as (p' & Hp'). pose proof (R7 r p' Hp') as Hf.
-        unfold role_fresh in *; cbn [y_rexp y_docs]. rewrite rexp_get_put.
-        replace (r =? r0) with false by (symmetry; apply N.eqb_neq; exact Hne). exact Hf.
+      * destruct (Hlive r p (Hncc r _ Hne (Hnct r)) Hget) as (p' & Hp').
+        eapply role_fresh_same; [| | apply (Hother r p' Hne Hp')]; reflexivity.
     + (* live *)
-      destruct (same_keys (rexp_get r0 (y_rexp y)) (sorted_set set0)) eqn:E; constructor; cbn [with_g y_next y_uexp y_urexp y_docs y_rexp y_g] in *; auto; try lia.
-      * intros r p Hget. destruct (N.eq_dec r r0) as [->|Hne]; [apply (R7 r0 p0 E0) |].
-        destruct (Hlive r p Hne Hget) as (p' & Hp'). apply (R7 r p' Hp').
-      * intros r p Hget. destruct (N.eq_dec r r0) as [->|Hne].
-        -- destruct (R7 r0 p0 E0) as [[Hl Hex]|[Hex Hdoc]]; [left | right]; cbn [y_rexp y_docs]; rewrite rexp_get_put, N.eqb_refl.
-           ++ split; auto. intros c s Hin Hle. apply in_update_at_seq in Hin as [[Hin _]|(-> & _)]; [auto | lia].
-           ++ split; auto. intros c s Hin. apply in_update_at_seq in Hin as [[Hin _]|(-> & _)]; [eauto | exact HK].
-        -- destruct (Hlive r p Hne Hget) as (p' & Hp'). pose proof (R7 r p' Hp') as Hf.
-           unfold role_fresh in *; cbn [y_rexp y_docs]. rewrite rexp_get_put.
-           replace (r =? r0) with false by (symmetry; apply N.eqb_neq; exact Hne). exact Hf.
+      destruct (same_keys (rexp_get r0 (y_rexp y)) (sorted_set set0)) eqn:E.
+      * apply (rel_admin y0 y); auto.
+        intros r p Hget.
+        assert (Forall (not_create_of r) (gops_load_role r0 y ++ [])) as Hnc by (apply Forall_app; split; repeat constructor).
+        destruct (Hlive r p Hnc Hget) as (p' & Hp'). apply (R7 r p' Hp').
+      * apply (rel_admin y0 y); auto.
+        intros r p Hget.
+        assert (Forall (not_create_of r) (gops_load_role r0 y ++ [InvalRole r0 (y_next y)])) as Hnc by (apply Forall_app; split; repeat constructor).
+        destruct (Hlive r p Hnc Hget) as (p' & Hp').
+        destruct (N.eq_dec r r0) as [->|Hne]; [| eapply role_fresh_same; [| | apply (Hother r p' Hne Hp')]; reflexivity].
+        destruct (R7 r0 p' Hp') as [[Hl Hex]|[Hex Hdoc]]; [left | right]; cbn [y_rexp y_docs]; rewrite rexp_get_put, N.eqb_refl.
+        -- split; auto. intros c s Hin Hle. apply in_update_at_seq in Hin as [[Hin _]|(-> & _)]; [auto | lia].
+        -- split; auto. intros c s Hin. apply in_update_at_seq in Hin as [[Hin _]|(-> & _)]; [eauto | exact HK].
     + (* created *)
-      constructor; cbn [y_next y_uexp y_urexp y_docs y_rexp y_g] in *; auto; try lia.
+      apply (rel_admin y0 y); auto.
       intros r p Hget. destruct (N.eq_dec r r0) as [->|Hne].
-      * right. split.
+      * right. cbn [y_rexp y_docs]. split.
         -- intros c s Hin. rewrite rexp_get_put, N.eqb_refl in Hin.
            apply in_update_at_seq in Hin as [[[] _]|(-> & _)]. exact HK.
         -- intros x c s Hx Hin. exfalso. eapply doc_grants_nil; eauto. destruct (doc_grants r0 (y_docs y)); [reflexivity | discriminate].
-      * destruct (Hlive r p Hne Hget) as (p' & Hp'). pose proof (R7 r p' Hp') as Hf.
-        unfold role_fresh in *; cbn [y_rexp y_docs]. rewrite rexp_get_put.
-        replace (r =? r0) with false by (symmetry; apply N.eqb_neq; exact Hne). exact Hf.
+      * destruct (Hlive r p (Hncc r _ Hne (Hnct r)) Hget) as (p' & Hp').
+        eapply role_fresh_same; [| | apply (Hother r p' Hne Hp')]; reflexivity.
   - (* SDelRole *)
-    assert (forall r p, role_get r (g_roles (y_g (sys_step y (SDelRole r0)))) = Some (p, false) ->
-              exists p', role_get r (g_roles (y_g y)) = Some (p', false)) as Hlive.
-    { intros r p Hget. rewrite sys_step_g_eq in Hget. refine (run_live_inv _ _ _ _ _ Hget). cbn [sys_gops].
-      destruct (role_get r0 (g_roles (y_g y))) as [[p0 [|]]|]; repeat constructor. }
     cbn [sys_step sys_gops] in *.
-    destruct (role_get r0 (g_roles (y_g y))) as [[p0 [|]]|] eqn:E0; auto.
-    constructor; cbn [y_next y_uexp y_urexp y_docs y_rexp y_g] in *; auto; try lia.
-    intros r p Hget. destruct (Hlive r p Hget) as (p' & Hp'). apply (R7 r p' Hp').
+    remember (role_get r0 (g_roles (y_g y))) as rg eqn:E0 in *.
+    destruct rg as [[p0 [|]]|]; auto.
+    apply (rel_admin y0 y); auto.
+    intros r p Hget.
+    assert (Forall (not_create_of r) (gops_load_role r0 y ++ [DeleteRole r0 (y_next y)])) as Hnc by (apply Forall_app; split; repeat constructor).
+    destruct (Hlive r p Hnc Hget) as (p' & Hp'). apply (R7 r p' Hp').
   - (* SPull *)
-    assert (forall r p, role_get r (g_roles (y_g (sys_step y (SPull limit)))) = Some (p, false) ->
-              exists p', role_get r (g_roles (y_g y)) = Some (p', false)) as Hlive.
-    { intros r p Hget. rewrite sys_step_g_eq in Hget. refine (run_live_inv _ _ _ _ _ Hget). cbn [sys_gops]. apply not_create_loads. }
     cbn [sys_step sys_gops] in *.
-    constructor; cbn [with_g y_next y_uexp y_urexp y_docs y_rexp y_g] in *; auto; try lia.
-    intros r p Hget. destruct (Hlive r p Hget) as (p' & Hp'). apply (R7 r p' Hp').
+    apply (rel_admin y0 y); auto.
+    intros r p Hget. destruct (Hlive r p (not_create_loads y r) Hget) as (p' & Hp'). apply (R7 r p' Hp').
 Qed.
